@@ -129,14 +129,15 @@ def conversion(args):
     with t4_output_filename.open('w') as ofile:
         writeHeader(ofile)
         (dic_surf_mcnp, dic_surface_t4, dic_volumes_t4, mcnp_new_dict,
-         skipped_cells, renumber) = geom_conv
+         skipped_cells, renumber, bounding_surfs) = geom_conv
         writeT4Geometry(dic_surface_t4, dic_volumes_t4, skipped_cells, ofile)
         if not args.skip_compositions:
             writeT4Composition(mcnp_parser, mcnp_new_dict, ofile)
         if not args.skip_geomcomp:
             writeT4GeomComp(dic_volumes_t4, mcnp_new_dict, ofile)
         if not args.skip_boundary_conditions:
-            writeT4BoundCond(dic_surf_mcnp, ofile, renumber, dic_volumes_t4)
+            writeT4BoundCond(dic_surf_mcnp, ofile, renumber, dic_volumes_t4,
+                             bounding_surfs)
 
     if skipped_cells:
         print('\nNOTE: the following cells have been omitted from the '
